@@ -18,7 +18,7 @@ func (c08) Gen(tier string, seed int64, emit func([]Ev)) {
 	r := rand.New(rand.NewSource(seed))
 	n := 1500
 	if tier == "thorough" {
-		n = 30000
+		n = 150000
 	}
 	for i := 0; i < n; i++ {
 		s := rndSig(r)
